@@ -269,7 +269,7 @@ def print_utf8(ctx, lexpr):
     entries.sort(key=lambda f: f.kind == "closure")
     entered = set()
     for f in entries:
-        if f.kind == "closure" and f.path in entered:
+        if f.kind == "closure" and (f.path in entered or f.owner in fwd):
             continue
         argsets = [dict()]
         for i in range(1, f.arg_count + 1):
@@ -306,10 +306,12 @@ def print_utf8(ctx, lexpr):
                     site = (ev[3], ev[4])
                     if site not in static_sites:
                         continue
-                    if ev[3] in fwd and stack and stack[-1][0] == ev[3] and (stack[-1][1], stack[-1][2]) in static_sites:
-                        # the write_all inside a forwarding helper belongs to the call site of the helper
+                    owner = ev[3].split("::{closure", 1)[0]
+                    frame = next((fr for fr in reversed(stack) if fr[0] == owner), None) if owner in fwd else None
+                    if frame is not None and (frame[1], frame[2]) in static_sites:
+                        # the write_all inside a forwarding helper (or a closure of it) belongs to the call site of the helper
                         okc, desc = classify(ev[6][1] if len(ev[6]) > 1 else None, S, p)
-                        csite = (stack[-1][1], stack[-1][2])
+                        csite = (frame[1], frame[2])
                         if okc:
                             covered.setdefault(csite, desc + " (through %s)" % ev[3].rsplit("::", 1)[-1])
                         else:
@@ -333,7 +335,7 @@ def print_utf8(ctx, lexpr):
                         bad[site] = desc
     n = 0
     for site, (g, t, m) in sorted(static_sites.items(), key=lambda x: (x[0][0], x[0][1])):
-        if g.path in fwd:
+        if g.path.split("::{closure", 1)[0] in fwd:
             continue          # accounted for at the helper's call sites
         n += 1
         if site in bad:
@@ -626,9 +628,25 @@ def scratch_rules(ctx, lexpr, suffix=""):
         r3.anchor_missing("parse::read::decode_utf8_sequence")
     else:
         idom = cfg.dominators(f)
-        fu = [bi for bi, t in f.calls() if t["callee"].get("path", "").endswith("str::from_utf8")
-              or t["callee"].get("path", "") in ("std::str::from_utf8", "core::str::from_utf8")]
+        is_fu = lambda t: t["callee"].get("path", "").endswith("str::from_utf8") or \
+            t["callee"].get("path", "") in ("std::str::from_utf8", "core::str::from_utf8")
+        # a local wrapper that validates (`as_str(read, bytes) -> Result<&str>`: str::from_utf8 with the error mapped)
+        validators = {g.path for g in lexpr.fns if g.kind != "closure" and g.file.endswith(("parse/read.rs", "parse/mod.rs"))
+                      and g.local_ty(0).startswith("std::result::Result<&") and "str" in g.local_ty(0).split(",")[0]
+                      and any(is_fu(t) for _b, t in g.calls())
+                      and not any(n.endswith("from_utf8_unchecked") for _b, t in g.calls() for n in F.callee_names(t))}
+        is_val = lambda t: is_fu(t) or (t["callee"].get("resolved") or t["callee"].get("path")) in validators
+        fu = [bi for bi, t in f.calls() if is_val(t)]
         oks = []
+        fdefs = common.defs_of(f)
+        mapped_ok = False
+        for bi, t in f.calls():
+            # `as_str(read, scratch).map(|s| ..)` as the return value: Ok only where the validation gave Ok
+            if not t["dest"]["p"] and t["dest"]["l"] == 0 and t["callee"].get("path", "") in (
+                    "std::result::Result::<T, E>::map", "std::result::Result::<T, E>::and_then") and t["args"]:
+                o = common.origin(f, fdefs, t["args"][0])
+                if o["k"] == "call" and is_val(o["t"]):
+                    mapped_ok = True
         for bi, b in enumerate(f.blocks):
             for s in b["stmts"]:
                 if s["k"] == "assign" and s["place"]["l"] == 0 and not s["place"]["p"] and s["rv"]["k"] == "agg" \
@@ -636,6 +654,8 @@ def scratch_rules(ctx, lexpr, suffix=""):
                     oks.append(bi)
         if not fu:
             r3.violation(f.path, "no-validation", "decode_utf8_sequence no longer calls str::from_utf8 on the bytes it read")
+        elif not oks and mapped_ok:
+            r3.ok("decode_utf8_sequence returns the validation's own result, mapped: Ok only behind a successful str::from_utf8", f)
         elif not oks:
             r3.anchor_missing("decode_utf8_sequence has no Ok(..) return")
         else:
